@@ -3,12 +3,14 @@ EXTENDS Integers, Sequences, FiniteSets, TLC, Json
 Kinds == {"range", "le", "ge", "eq"}
 RowSeqs == {<<"range", "le">>, <<"eq", "range", "ge">>, <<"le", "ge", "eq", "range">>, <<"range", "range">>, <<"ge", "eq">>}
 Extras == {"none", "abs", "logic", "abs+logic",
-           "sos1", "sos2+abs"}      \* an SOS set over the variables, given by the suffixes sosno / ref
+           "sos1", "sos2+abs",
+           "ite", "ite+max"}        \* if-then-else with variable branches / and a max: multi-level conversions      \* an SOS set over the variables, given by the suffixes sosno / ref
 RangeModes == {"native", "slack", "linear"}
 Modes == 0..3
 Files == {"absent", "present", "short", "crlf",
           "colonly", "rowonly"}      \* only one of the two name files was written
-NameSets == {"plain", "derivedlike", "genericlike", "sluglike"}
+NameSets == {"plain", "derivedlike", "genericlike", "sluglike",
+             "long"}        \* names of about 270 characters (AMPL items indexed over long string set members)
 VARIABLES rows, extra, rmode, mode, files, nameset
 Init == rows \in RowSeqs /\ extra \in Extras /\ rmode \in RangeModes /\ mode \in Modes /\ files \in Files /\ nameset \in NameSets
 Next == UNCHANGED <<rows, extra, rmode, mode, files, nameset>>
